@@ -45,6 +45,10 @@ func itemShapes(c *Counter) []Shaped {
 		mk("link", &ap.Link{Type: ap.MentionType, Href: c.ID("h")}),
 		mk("link-id", &ap.Link{ID: c.ID("l"), Type: ap.LinkType, Href: c.ID("h")}),
 		mk("objval:Object", ap.Object{ID: c.ID("o"), Type: ap.NoteType}),
+		mk("objval:Actor", ap.Actor{ID: c.ID("p"), Type: ap.ServiceType, Outbox: c.ID("outbox")}),
+		mk("objval:Activity", ap.Activity{ID: c.ID("a"), Type: ap.AnnounceType, Object: c.ID("o")}),
+		mk("objval:OrderedCollection", ap.OrderedCollection{ID: c.ID("c"), Type: ap.OrderedCollectionType, TotalItems: 1, OrderedItems: ap.ItemCollection{c.ID("m")}}),
+		mk("objval:Link", ap.Link{Type: ap.MentionType, Href: c.ID("h")}),
 		mk("list1:iri", ap.ItemCollection{c.ID("i")}),
 		mk("list1:obj", ap.ItemCollection{&ap.Object{ID: c.ID("o"), Type: ap.NoteType}}),
 		mk("list2", ap.ItemCollection{c.ID("i"), &ap.Object{ID: c.ID("o"), Type: ap.NoteType}}),
